@@ -756,6 +756,7 @@ func (s *sctx) flavorItem(withInstance bool, role string) Item {
 		// (the flavor has as many ancestors as its component then)
 		opts = append(opts, ":no-vanilla-flavor")
 	}
+	aok := false
 	doc := docOpt(r)
 	s.nflavor++
 	if doc != "" {
@@ -767,7 +768,15 @@ func (s *sctx) flavorItem(withInstance bool, role string) Item {
 		for k, n := 0, min(len(inittable), 1+r.IntN(3)); k < n; k++ {
 			plist += fmt.Sprintf(" (:%s %d)", inittable[k].name, r.IntN(50))
 		}
+		if r.IntN(3) == 0 {
+			plist = " (:allow-other-keys t)" + plist
+			aok = true
+		}
 		opts = append(opts, "(:default-init-plist"+plist+")")
+	} else if r.IntN(8) == 0 {
+		// nothing but the permission to pass unknown keywords
+		opts = append(opts, "(:default-init-plist (:allow-other-keys t))")
+		aok = true
 	}
 	switch {
 	case withInstance || s.plain || info.capable || role != "" || dirtyParent:
@@ -801,6 +810,10 @@ func (s *sctx) flavorItem(withInstance bool, role string) Item {
 	}
 	it.Probes = append(it.Probes, fmt.Sprintf("(let ((i %s)) (list %s))", mk, strings.Join(gets, " ")))
 	it.Probes = append(it.Probes, fmt.Sprintf("(let ((i (make-instance '%s))) (list %s))", name, strings.Join(gets, " ")))
+	if aok || r.IntN(6) == 0 {
+		// a keyword no flavor of the chain knows: accepted or refused alike before and after
+		it.Probes = append(it.Probes, fmt.Sprintf("(let ((i (make-instance '%s :c19-unknown-key 1))) (list %s))", name, strings.Join(gets, " ")))
+	}
 	isIn := func(set []fvar, v fvar) bool {
 		for _, x := range set {
 			if x.name == v.name {
@@ -1250,19 +1263,24 @@ func (s *sctx) genericItem() Item {
 	// :after and (at most one, C10 knows a hang with two) :around
 	if 0 < len(primaries) && r.IntN(2) == 0 && primaries[0][len(primaries[0])-1] != -1 {
 		var sp []string
+		// (a qualifier method names its parameters as it likes)
+		qparams, qopt := params, "(o0 1)"
+		if r.IntN(2) == 0 {
+			qparams, qopt = []string{"q0", "q1"}[:nreq], "(oq 2)"
+		}
 		for i, t := range primaries[0] {
-			sp = append(sp, fmt.Sprintf("(%s %s)", params[i], specTypes[t].typ))
+			sp = append(sp, fmt.Sprintf("(%s %s)", qparams[i], specTypes[t].typ))
 		}
 		mll := strings.Join(sp, " ")
 		if opt {
-			mll += " &optional (o0 1)"
+			mll += " &optional " + qopt
 		}
 		pick := 1 + r.IntN(7) // a non-empty subset of the three
 		if pick&1 != 0 {
-			it.Forms = append(it.Forms, fmt.Sprintf("(defmethod %s :before (%s) (setq %s (cons 'before %s)))", name, mll, tr, tr))
+			it.Forms = append(it.Forms, fmt.Sprintf("(defmethod %s :before (%s) (setq %s (cons (list 'before %s) %s)))", name, mll, tr, qparams[nreq-1], tr))
 		}
 		if pick&2 != 0 {
-			it.Forms = append(it.Forms, fmt.Sprintf("(defmethod %s :after (%s) (setq %s (cons (list 'after %s) %s)))", name, mll, tr, params[0], tr))
+			it.Forms = append(it.Forms, fmt.Sprintf("(defmethod %s :after (%s) (setq %s (cons (list 'after %s) %s)))", name, mll, tr, qparams[0], tr))
 		}
 		if pick&4 != 0 {
 			it.Forms = append(it.Forms, fmt.Sprintf("(defmethod %s :around (%s) (setq %s (cons 'around %s)) (list 'around (call-next-method)))", name, mll, tr, tr))
